@@ -173,7 +173,7 @@ def convert_lines(raw_lines):
     return out, index
 
 
-def validate(tlc_lines, wd, name="trace", module="Trace_Arith", timeout=3000, chunks=None):
+def validate(tlc_lines, wd, name="trace", module="Trace_Arith", timeout=3000, chunks=None, overlap=0):
     """Runs TLC over the trace (split over `chunks` parallel TLC processes). Returns (bad list of (line, idx), stats)."""
     import threading
     nchunks = chunks or max(1, min(8, len(tlc_lines) // 200))
@@ -182,8 +182,9 @@ def validate(tlc_lines, wd, name="trace", module="Trace_Arith", timeout=3000, ch
     errs = []
 
     def work(k):
-        part = tlc_lines[k * size:(k + 1) * size]
-        if not part:
+        lo = max(0, k * size - overlap) if k > 0 else 0
+        part = tlc_lines[lo:(k + 1) * size]
+        if not part or k * size >= len(tlc_lines):
             results[k] = ([], dict(generated=0, distinct=0))
             return
         d = os.path.join(wd, "%s_%d" % (name, k))
@@ -196,7 +197,7 @@ def validate(tlc_lines, wd, name="trace", module="Trace_Arith", timeout=3000, ch
         def on_line(tag, obj):
             if tag == "BAD":
                 for b in obj["bad"]:
-                    bad.append((b[0] + k * size, b[1]))
+                    bad.append((b[0] + lo, b[1]))
                 if obj["lines"] != len(part):
                     errs.append(ToolError("TLC read %d lines, expected %d" % (obj["lines"], len(part))))
         try:
@@ -223,7 +224,7 @@ def validate(tlc_lines, wd, name="trace", module="Trace_Arith", timeout=3000, ch
     bad = []
     gen = dist = 0
     for b, r in results:
-        bad += b
+        bad += [x for x in b if x not in bad]
         gen += r["generated"]
         dist += r["distinct"]
     return sorted(bad), dict(generated=gen, distinct=dist)
